@@ -118,6 +118,8 @@ def model(ctx, name, worlds_expr, workers):
     if res.rc != 0:
         raise tlcmod.MachineryError("x09: TLC rc=%s on family %s\n%s" % (res.rc, name, res.stdout[-3000:]))
     rows = parse_rows(res.stdout)
+    ctx.extra.setdefault("actions_fired", {})[name] = ("DoResolve, DoRead, DoSettle fire once per world: %d states = 4 x %d worlds"
+                                                       % (res.distinct, len(rows)))
     if len(rows) * 4 != res.distinct:
         raise tlcmod.MachineryError("x09: %d table rows for %d states (family %s)" % (len(rows), res.distinct, name))
     return rows
